@@ -991,9 +991,11 @@ impl Ty {
                 Some(Ty::Float(*first_bit_width.max(second_bit_width)))
             }
             // distincts
+            // the distinct is the common type, so the other type has to fit into it as well:
+            // `{uint}` fits into a `distinct u8`, `{int}` (`-1`) and `?u8` don't
             (non_distinct, Ty::Distinct { .. }) => {
                 assert_eq!(self, non_distinct);
-                if other.has_semantics_of(self) {
+                if other.has_semantics_of(self) && self.can_fit_into(other) {
                     Some(other.clone())
                 } else {
                     None
@@ -1001,7 +1003,7 @@ impl Ty {
             }
             (Ty::Distinct { .. }, non_distinct) => {
                 assert_eq!(other, non_distinct);
-                if self.has_semantics_of(non_distinct) {
+                if self.has_semantics_of(non_distinct) && non_distinct.can_fit_into(self) {
                     Some(self.clone())
                 } else {
                     None
